@@ -1378,17 +1378,20 @@ func (e *Entry) FixChoice() {
 // If Config is unset in e, then false is returned if e has no parent,
 // otherwise the value parent's ReadOnly is returned.
 func (e *Entry) ReadOnly() bool {
-	switch {
-	case e == nil:
-		// We made it all the way to the root of the tree
-		return false
-	case e.Kind == OutputEntry:
-		return true
-	case e.Config == TSUnset:
-		return e.Parent.ReadOnly()
-	default:
-		return !e.Config.Value()
+	// Everything in the output of an rpc or action is read-only, whatever
+	// config statements it may carry.
+	for p := e; p != nil; p = p.Parent {
+		if p.Kind == OutputEntry {
+			return true
+		}
 	}
+	for p := e; p != nil; p = p.Parent {
+		if p.Config != TSUnset {
+			return !p.Config.Value()
+		}
+	}
+	// We made it all the way to the root of the tree
+	return false
 }
 
 // Find finds the Entry named by name relative to e.
